@@ -50,8 +50,8 @@ def correspond(ctx):
       ctx.broken('theorem contradicted on a recorded trace', json.dumps({'bundle': meta['bundle']}, default=repr)[:800])
     if code & K.B_MREDO:
       eng = [i for i in res['issues'] if i['replay'].get('bundle') == meta['bundle']]
-      if not eng and 'ReplaceTableData' not in meta['kinds']:
-        ctx.broken('correspondence:model redo replay fails where the engine redo succeeds',
+      if not eng and 'ReplaceTableData' not in meta['kinds'] and code & K.B_MREDO_DATA:
+        ctx.broken('correspondence:model redo replay fails on data cells where the engine redo succeeds',
                    json.dumps({'history': meta['history'], 'bundle': meta['bundle']}, default=repr)[:1500])
       ctx.bump('model-redo-replay-fails')
   for s in res['samples'][:3]:
@@ -82,17 +82,18 @@ def _report(ctx, issue):
   rep = issue['replay']
   kind = issue['kind']
   if rep.get('history') is not None and rep.get('bundle') is not None:
-    if kind == 'redo-differs' and issue.get('trace_index') is None:
+    if kind in ('redo-differs', 'redo-differs:formula-cells-only') and issue.get('trace_index') is None:
       probe = {'kind': kind}
       K.refine_with_code(probe, K.code_of_bundle(ctx, rep['history'], rep['bundle']))
       kind = probe['kind']
     try:
-      by_code = kind.endswith(':recalculation-after-redo')
-      h, b = K.shrink_issue(rep['history'], rep['bundle'], PROP, 'redo-differs' if by_code else kind)
+      by_code = kind.endswith((':recalculation-after-redo', ':formula-cells-only'))
+      h, b = K.shrink_issue(rep['history'], rep['bundle'], PROP,
+                               ('redo-differs', 'redo-differs:formula-cells-only') if by_code else kind)
       if by_code:
-        probe = {'kind': 'redo-differs'}
-        K.refine_with_code(probe, K.code_of_bundle(ctx, h, b))
-        if probe['kind'] != kind:
+        issues3, _ = K.check_bundle(K.build(h), copy.deepcopy(b))
+        kinds3 = {k3 for p3, k3, _w in issues3 if p3 == PROP}
+        if not kinds3 & {'redo-differs', 'redo-differs:formula-cells-only'}:
           h, b = rep['history'], rep['bundle']
       rep = {'history': h, 'bundle': b, 'kind': kind}
     except Exception:
@@ -105,8 +106,7 @@ def replay(ctx, w):
 
 
 def _recalculation(violation, entry):
-  return violation.get('kind') == 'redo-differs:recalculation-after-redo'
+  return violation.get('kind') in ('redo-differs:recalculation-after-redo', 'redo-differs:formula-cells-only')
 
 
 MATCHERS = {'recalculation': _recalculation}
-DISABLED = True
